@@ -141,24 +141,25 @@ class Stream:
         completed).
         """
 
-        # someone already called close() but we're not closed yet: the
-        # new caller waits for the same thing (as in Circuit.close)
-        if self._closing_deferred:
-            d = defer.Deferred()
+        # nobody called close() yet (or we've been closed since): ask Tor
+        if not self._closing_deferred:
+            self._closing_deferred = defer.Deferred()
 
-            def closed(arg):
-                d.callback(arg)
-                return arg
-            self._closing_deferred.addBoth(closed)
-            return d
+            def close_command_is_queued(*args):
+                return self._closing_deferred
+            cmd = self.circuit_container.close_stream(self, **kw)
+            cmd.addCallback(close_command_is_queued)
 
-        self._closing_deferred = defer.Deferred()
+        # every caller (the first one and whoever calls close() again
+        # before we're closed) gets a Deferred of its own, so that what
+        # one caller chains to it can't change what the others see
+        d = defer.Deferred()
 
-        def close_command_is_queued(*args):
-            return self._closing_deferred
-        d = self.circuit_container.close_stream(self, **kw)
-        d.addCallback(close_command_is_queued)
-        return self._closing_deferred
+        def closed(arg):
+            d.callback(arg)
+            return arg
+        self._closing_deferred.addBoth(closed)
+        return d
 
     def _create_flags(self, kw):
         """
